@@ -15,6 +15,15 @@ def too_big(sh):
     return MR._max_abs_const(sh) > MR.MAX_CONST or S.size(sh) > 160 or S.depth(sh) > 40
 
 
+def safe_to_evaluate(root, ctx=None):
+    """False when evaluating the tree exactly could involve integers beyond ~60000 bits
+    (Python's exact ** would take minutes on power towers); such pairs are not driven."""
+    from ..oracles import exact as X
+
+    sig = {k: v for k, v in (ctx or {}).items() if isinstance(v, (int, float)) and v == v and abs(v) != float("inf")}
+    return X.magnitude_bits(S.shadow(root), sig) is not None
+
+
 def step(rec, node, rule, check_original=False):
     """One search-agent step: clone the whole tree via the node, apply the rule to the
     copy.  Returns the new root or None if the application raised.  With
